@@ -193,6 +193,11 @@ def correction_events(darsia, rng, work, reps):
         zero = {"horizontal_bulge": rng.choice([0.0, 1e-3]), "horizontal_center_offset": 0, "vertical_bulge": 0.0, "vertical_center_offset": 0}
         cands.append(("CurvatureCorrection", lambda: darsia.CurvatureCorrection(config={"bulge": dict(zero)}), probe))
 
+        # curvature correction with a crop defined by corner voxels (as set by crop(): a VoxelArray in (row, column) order)
+        crop_cfg = {"crop": {"pts_src": darsia.make_voxel([[0, 0], [H - 1, 0], [H - 1, W - 2], [0, W - 2]]), "width": 0.25 * (W - 2), "height": 0.25 * (H - 1), "in meters": True},
+                    "bulge": dict(zero)}
+        cands.append(("CurvatureCorrection", lambda: darsia.CurvatureCorrection(config=dict(crop_cfg)), probe))
+
         def illum():
             ic = darsia.IlluminationCorrection()
             ic.colorspace = rng.choice(["rgb", "rgb-scalar"])
